@@ -326,9 +326,10 @@ Piecewise(kind, S, r) ==
                  \E j \in i..Len(S) :
                     /\ Range(x.topics) = S[j].ptop[x.p]
                     /\ \A tt \in Range(x.topics) :
+                         \* (the per-topic producer list is read once per query and cached: possibly before j)
                          IF tt \in Range(x.tombstoned)
-                         THEN \E k \in j..Len(S) : tt \in S[k].ptomb[x.p]
-                         ELSE \E k \in j..Len(S) : tt \notin S[k].ptomb[x.p]
+                         THEN \E k \in i..Len(S) : tt \in S[k].ptomb[x.p]
+                         ELSE \E k \in i..Len(S) : tt \notin S[k].ptomb[x.p]
                     /\ Range(x.tombstoned) \subseteq Range(x.topics)
     [] OTHER -> FALSE
 
